@@ -2,6 +2,7 @@
 import PflDrv.Json
 import Pfl.Model.Feature
 import Pfl.Oracle.FsGround
+import Pfl.Model.FeatureDag
 open Lean Pfl
 namespace PflDrv
 
@@ -38,6 +39,21 @@ def fsHandle (op : String) (j : Json) : R Json := do
     let vals ← asStrList (← field j "vals")
     let ss ← (← asArr (← field j "structures")).mapM asSFS
     pure (jList jNatList (ss.map (FsGround.meaning paths vals)))
+  | "fs.unifyDag" =>   -- faithful store model of unify with sharing, on structures built like build_sfs
+    let paths ← (← asArr (← field j "paths")).mapM asStrList
+    let a ← asSFS (← field j "a")
+    let b ← asSFS (← field j "b")
+    let jLeaf : FsGround.Leaf → Json := fun l => match l with
+      | .atom v => Json.arr #[jStr "atom", jStr v]
+      | .var x => Json.arr #[jStr "var", jStr x]
+      | .free => Json.arr #[jStr "free", jStr ""]
+    match FsDag.unifySFS a b 200 with
+    | (.ok st, r) => pure (Json.mkObj [("ok", jList (fun (e : List String × FsGround.Leaf) =>
+        match jLeaf e.2 with
+        | Json.arr x => Json.arr (#[jList jStr e.1] ++ x)
+        | y => y) (FsDag.read st r paths))])
+    | (.conflict, _) => pure (Json.mkObj [("conflict", jBool true)])
+    | (.fuel, _) => throw "fuel"
   | "fs.unify" =>
     let a ← asFS (← field j "a")
     let b ← asFS (← field j "b")
